@@ -143,7 +143,9 @@ func TestVerifInputsExported(t *testing.T) {
 			top, base := inputstok.Join(in["top"]), inputstok.Join(in["base"])
 			c, err := daemon.MergeConfigAndUnmarshal([]byte(top), []byte(base))
 			out["mergeerr"] = err != nil
-			if err == nil && c != nil {
+			if err == nil {
+				// exactly what every caller in the daemon does with an error-free result (builder.LoadGlobalConfig,
+				// LoadDynamicConfig): use it without a nil check
 				c.Populate()
 				_ = c.Validate()
 				_, _ = c.GetSecurityGroups(), c.GetVSwitchIDs()
